@@ -106,13 +106,23 @@ def generate(batch: str, r: Rng, idx: int, tier: str) -> Dict[str, Any]:
         return {"kind": "timer", "exec": "py+rs-timer", "mti": mti, "sti": sti, "enabled": r.chance(7, 8),
                 "script": _gen_script(r.child("script"), mti, sti)}
     executor = batch
+    # variants: plain (master enable clear, no keys) / keys (key events while the timers run: the scan and the KEYI
+    # assertion share the timer tick) / irq (interrupts enabled: timers stand still while a handler runs and catch
+    # up afterwards)
+    variant = r.child("variant").weighted([("plain", 2), ("keys", 1), ("irq", 1)])
     feat = {"timers": True, "wait": True, "halt": r.chance(1, 2), "calls": r.chance(1, 2), "far_calls": False,
-            "imr_writes": False, "isr_writes": False, "ir": False, "off": False, "keys": False, "onk": False,
+            "imr_writes": False, "isr_writes": False, "ir": False, "off": False, "keys": variant == "keys", "onk": False,
             "nested": False}
     n = r.choice([40, 80, 160] if executor == "py-machine" else [40, 80, 160, 320])
-    scn = machine.gen_machine_scenario(r, executor, feat, boundaries=n, faulty=False)
-    scn["imem"] = [[progen.IMR, r.choice([0x00, 0x03, 0x0F, 0x7F])], [progen.ISR, 0]]   # master bit clear
-    scn["ops"] = [[k, "ackisr", 0x03] for k in range(n)]
+    scn = machine.gen_machine_scenario(r, executor, feat, boundaries=n, faulty=(variant == "keys"))
+    if variant == "irq":
+        scn["imem"] = [[progen.IMR, r.choice([0x83, 0x81, 0x82])], [progen.ISR, 0]]
+    else:
+        scn["imem"] = [[progen.IMR, r.choice([0x00, 0x03, 0x0F, 0x7F])], [progen.ISR, 0]]   # master bit clear
+    scn["variant"] = variant
+    key_ops = [o for o in scn.get("ops", []) if o[1] == "key"] if variant == "keys" else []
+    # the host acknowledges the timer bits at every boundary (not with interrupts enabled: the handler does)
+    scn["ops"] = key_ops + ([[k, "ackisr", 0x03] for k in range(n)] if variant != "irq" else [])
     # crash/restart points: the real save_snapshot/load_snapshot path must keep timer state
     rr = r.child("restarts")
     for _ in range(rr.range(0, 2)):
@@ -337,13 +347,41 @@ def _check_machine(scn: Dict[str, Any], hist: Dict[str, Any]) -> List[dict]:
         # first and ticks c0+1..c1.
         if c1 == c0:
             continue      # nothing advanced (e.g. breakpoint / powered off)
+        if pre[machine.O_ININT] or (ex == "py-machine" and post[machine.O_ININT] and not pre[machine.O_PWR]):
+            # a handler is running: both machines keep the timers still until it has returned.  (The Python step takes
+            # a pending interrupt before its tick, so the step that enters the handler does not tick either — unless it
+            # started halted: the halted branch ticks first and the wake-up is delivered in the same step.)
+            for bit, name, nidx in ((1, "MTI", machine.O_NMTI), (2, "STI", machine.O_NSTI)):
+                rose = bool(post[machine.O_ISR] & bit) and not (pre[machine.O_ISR] & bit)
+                if rose or post[nidx] != pre[nidx]:
+                    V("cadence", k, f"{name} {'fired' if rose else 'moved its target'} while an interrupt handler was running "
+                      f"(target {pre[nidx]} -> {post[nidx]})", timer=name, kind="inside_handler", level="machine")
+            continue
         if ex == "py-machine":
             first, last = c0, c1 - 1
         else:
             first, last = c0 + 1, c1
+        irq_variant = scn.get("variant") == "irq"
         for bit, name, period, nidx in ((1, "MTI", t["mti"], machine.O_NMTI), (2, "STI", t["sti"], machine.O_NSTI)):
             nxt = pre[nidx]
             expect = bool(t["enabled"] and period > 0 and nxt <= last)
+            if irq_variant:
+                # nobody acknowledges the status bits at the boundaries here (the handler does, inside a step), so a
+                # firing shows as the target moving on, not as a bit rising
+                moved = post[nidx] != pre[nidx]
+                if moved and not expect:
+                    V("cadence", k, f"{name} target moved {pre[nidx]} -> {post[nidx]} although no period boundary lies in cycles "
+                      f"{first}..{last}", timer=name, kind="extra", level="machine")
+                if expect and not moved:
+                    V("cadence", k, f"{name} period boundary at {nxt} lies in cycles {first}..{last} but the timer did not fire "
+                      f"(target unchanged)", timer=name, kind="missed", level="machine")
+                if expect and moved and not ((post[machine.O_ISR] | pre[machine.O_ISR]) & bit) and not post[machine.O_ININT]:
+                    V("isr_bit", k, f"{name} fired (target {pre[nidx]} -> {post[nidx]}) but its status bit is clear and no "
+                      f"handler is running", timer=name, level="machine")
+                if t["enabled"] and period > 0 and post[nidx] <= last:
+                    V("target_in_future", k, f"{name} target {post[nidx]} not beyond last ticked cycle {last}",
+                      timer=name, after="step")
+                continue
             rose = bool(post[machine.O_ISR] & bit) and not (pre[machine.O_ISR] & bit)
             if rose and not expect:
                 V("cadence", k, f"{name} status bit rose although no period boundary (target {nxt}, period {period}) lies in "
